@@ -19,6 +19,7 @@ func checkC19(w *World, r *Report) {
 	r.Rule("C19.zero", "P7", "reported inflation is zero when the period start is after now (Minter.CalculateInflation), for the no-minting configuration (constant), and for every configuration whose end has passed (now after end => zero; now equal to end => either)", 4)
 	r.Rule("C19.units", "P9", "units of measure over SSA: in the two inflation formulas the year constant, the period length, the elapsed time and the step length are combined in one time scale and the rate returned is a pure number (amount x year / period / supply)", 2)
 	r.Rule("C19.start", "P6,P7", "= C02.start for the inflation query: the rate is computed for the current period (result #0 of the shared selection) from the start its predecessor's end gives (params.StartTime without predecessor) - the same start the emission uses", 2)
+	r.Rule("C19.select", "P7", "= C02.select: the period whose rate is reported is selected by sequence id over all configured periods, as the emission does", 18)
 	r.Rule("C19.formula", "P6,P7", "closed world: inside a period with positive supply every value an implementation returns has the period's Amount, the year constant, the supply and (linear) the period start and end resp. (exponential) StepDuration and AmountMultiplier in its backward slice (origins restricted to the edges live in that ordering) - no shortcut result", 2)
 	r.Rule("C19.guard", "P5", "the division by the supply is dominated by the false edge of supply <= 0, whose true edge returns zero", 2)
 	r.Rule("C19.operands", "P6,P8", "the divisor originates from bank.GetSupply(params.MintDenom), the period from the selection over the stored state, the time from the block header; the constant year evaluates to 365 x 24 h; the query returns this value", 5)
@@ -42,6 +43,7 @@ func checkC19(w *World, r *Report) {
 	}
 	// ---------- C19.start ----------
 	periodStartRule(w, r, "C19.start", []*ssa.Function{gci})
+	minterSelectRule(w, r, "C19.select")
 	// ---------- C19.zero: Minter.CalculateInflation ----------
 	{
 		startP, nowP := paramOfType(mci, tTime, 0), paramOfType(mci, tTime, 1)
